@@ -138,3 +138,36 @@ def task_func_dispatch(task):
         except Exception as e:  # noqa
             out.append("EXC:" + type(e).__name__ + ":" + str(e)[:100])
     return {"outcomes": out}
+
+
+def task_func_trig_model(task):
+    """the REAL get_trig_moment on laws with atoms at integer multiples of pi/2 (duck-typed distribution whose cf is
+    the exponential sum of the law): the result is (pi/2)^a times a rational number, returned exactly"""
+    FA = _set_exact(True)
+    half_pi = sp.pi / 2
+
+    class AngleLaw:
+        def __init__(self, law):
+            self.law = [(sp.Rational(p), int(v)) for p, v in law]
+
+        def cf(self, t):
+            t = sp.sympify(t)
+            return sum(p * sp.exp(sp.I * half_pi * v * t) for p, v in self.law)
+
+        def get_moment(self, k):
+            return sum(p * (half_pi * v) ** int(k) for p, v in self.law)
+
+        def __str__(self):
+            return f"AngleLaw({self.law})"
+    out = []
+    for law, powers in task["requests"]:
+        pw = {k: int(v) for k, v in powers}
+        try:
+            r = FA.get_trig_moment(AngleLaw(law), pw)
+            q = sp.simplify(sp.expand(sp.sympify(r) / half_pi ** pw.get("Id", 0)))
+            out.append(f"{q.p}/{q.q}" if q.is_Rational else {"error": "not rational", "value": str(q)[:200]})
+        except AssertionError:
+            out.append({"error": "AssertionError"})
+        except Exception as e:  # noqa
+            out.append({"error": type(e).__name__, "msg": str(e)[:200]})
+    return {"values": out}
